@@ -152,5 +152,48 @@ def check(case, rec):
     rec.nontrivial(len(df) >= 3 and bool(asym))
 
 
+def check_helpers(case, rec):
+    """compute_durations / compute_extrema_voltage / compute_symmetry are row-wise definitions: they must hold on any
+    selection of rows of a cyclepoint table (bursting cycles only, every n-th cycle, ...)"""
+    from bycycle.features import compute_cyclepoints
+    from bycycle.features.shape import compute_durations, compute_extrema_voltage, compute_symmetry
+    import warnings
+    x = gen.render_signal(case['sig'])
+    pipeline.expected_cycles(dict(case, center='peak'), x)
+    with warnings.catch_warnings():
+        warnings.simplefilter('ignore')
+        pts = guarded(compute_cyclepoints, x.copy(), case['fs'], tuple(case['f_range']), **(gen.copy_json(case.get('fek')) or {}))
+    rows = [i for i in range(len(pts)) if not ((case['drop'] >> (i % 14)) & 1)] or [0]
+    sub = pts.iloc[rows]
+    if case['reset']:
+        sub = sub.reset_index(drop=True)
+    keep = sub.copy(deep=True)
+    sym = guarded(compute_symmetry, sub, x.copy())
+    period, time_peak, time_trough = guarded(compute_durations, sub)
+    volt_peak, volt_trough = guarded(compute_extrema_voltage, sub, x.copy())
+    if not ref.frames_equal(sub, keep)[0]:
+        raise Violation('helpers:input-modified', '')
+    exp = expected_shape(x, sub, 'peak', case['fs'], tuple(case['f_range']))
+    got = dict(sym, period=period, time_peak=time_peak, time_trough=time_trough, volt_peak=volt_peak, volt_trough=volt_trough)
+    for col in ['period', 'time_rise', 'time_decay', 'time_peak', 'time_trough', 'volt_peak', 'volt_trough', 'volt_rise', 'volt_decay',
+                'volt_amp', 'time_rdsym', 'time_ptsym']:
+        a = np.asarray(got[col], dtype=float)
+        b = np.asarray(exp[col], dtype=float)
+        if not ref.close_float(a, b, rtol=1e-12, atol=1e-12):
+            raise Violation('helpers:' + col, '%s (rows kept %d of %d)' % (ref.first_diff(a, b), len(rows), len(pts)))
+    rec.label('row-subset' if len(rows) < len(pts) else 'all-rows', 'index-reset' if case['reset'] else 'index-kept')
+    rec.nontrivial(len(rows) < len(pts) and len(rows) >= 2)
+
+
+@st.composite
+def strat_helpers(draw, tier):
+    case = draw(gen.st_analysis_case(methods=('cycles',), thresholds=False))
+    case['drop'] = draw(st.one_of(st.just(0), st.integers(1, 2 ** 14 - 1), st.integers(1, 2 ** 14 - 1)))
+    case['reset'] = draw(st.booleans())
+    return case
+
+
 PARTS = [Part('definitions', check, strategy=strategy, budget={'quick': 1200, 'thorough': 40000},
-              shards={'quick': 16, 'thorough': 16})]
+              shards={'quick': 16, 'thorough': 16}),
+         Part('row-wise-helpers', check_helpers, strategy=strat_helpers, budget={'quick': 500, 'thorough': 15000},
+              shards={'quick': 8, 'thorough': 16})]
